@@ -9,6 +9,7 @@ from ..gen import formats as F
 from ..runner import CaseResult
 from .. import netcase as N
 from .. import ratecase as R
+from .. import cudacase as CU
 from ..ref import laws
 from ..ctext.cfile import walk_decls
 from ..ctext.extract import BACKENDS, Project
@@ -114,6 +115,12 @@ def _case(draw):
         fams.append({"members": members, "adjacent": nwin > 1 or shape == "two-sided"})
     case = {"fmt": fmt, "lines": lrs, "families": fams, "variant": {"padded": False} if fmt == "naunet" else {}, "krome_txt": krome_txt,
             "Av": draw(st.sampled_from([0.0, 1.0])), "extra_T": draw(st.lists(st.floats(min_value=2.7, max_value=1e5), min_size=1, max_size=3))}
+    # a fraction of the cases executes the cuSPARSE kernels on a batch of cells whose temperatures are probe
+    # temperatures of this case (each cell must see only the reactions active at *its* temperature)
+    if draw(st.integers(0, 5)) == 0:
+        b = draw(CU.batch(maxcells=5))
+        b["tsel"] = [draw(st.integers(0, 10000)) for _ in range(b["ncell"])]
+        case["cuda"] = b
     return case
 
 
@@ -161,6 +168,7 @@ def check_case(case, tier):
     fmt = case["fmt"]
     lrs = case["lines"]
     failures = []
+    xtra = {}
     labels = [f"fmt-{fmt}"]
     with N.Scratch() as d:
         try:
@@ -245,6 +253,18 @@ def check_case(case, tier):
                                 bad = True
                 if bad:
                     break
+        if case.get("cuda") and not failures and "dense" in allp:
+            b = dict(case["cuda"])
+            b["tgas"] = [ts[i % len(ts)] for i in b["tsel"]]
+            try:
+                full = N.render(net, d / "cu", backends=[("cvode", "dense", "cpu"), ("cvode", "cusparse", "gpu")], templates="all")
+            except Exception:
+                full = None
+            if full:
+                labels.append("cuda-batch-executed")
+                f2, info = CU.run_batch(b, full["dense"], full["cusparse"])
+                failures += f2
+                xtra = dict(info)
     twosided = any(lr["tmin"] > 0 and lr["tmax"] > 0 for lr in lrs)
     for lr in lrs:
         labels.append("two-sided" if lr["tmin"] > 0 and lr["tmax"] > 0 else "lower-only" if lr["tmin"] > 0 else "upper-only" if lr["tmax"] > 0 else "no-window")
@@ -253,4 +273,4 @@ def check_case(case, tier):
     if any(float(b) != int(b) for lr in lrs for b in (lr["tmin"], lr["tmax"])):
         labels.append("non-integral-bound")
     sample = {"fmt": fmt, "windows": [(lr["tmin"], lr["tmax"]) for lr in lrs], "krome": case.get("krome_txt", [])[:4]}
-    return CaseResult(failures, twosided, sorted(set(labels)), sample=sample)
+    return CaseResult(failures, twosided, sorted(set(labels)), sample=sample, extra=xtra)
